@@ -621,6 +621,9 @@ def main(chk: Check) -> None:
         if cases:
             _account(chk, cases, alpha)
             judge(chk, cases, alpha, 'B')
+        # (D) lists of different classes side by side: ClassificationIsPerClass
+        from . import arglist_classes
+        arglist_classes.run(chk, ex, _tlc_part, dbg)
     chk.extra['random_histories'] = n_rand
     chk.extra['concrete_argument_table'] = len(alpha) - 2
     # (C) real command lines
@@ -635,12 +638,18 @@ def main(chk: Check) -> None:
         'the stub compiler translates nothing (unix_args_to_native is the identity) and reports three default include '
         'directories; MSVC-style translation is outside the statement',
         '__setitem__/__delitem__ with indices and slices are not generated (remove() covers deletion)',
+        'class tables: base CompilerArgs, CLikeCompilerArgs and DCompilerArgs as documented in their class attributes; '
+        'VisualStudio-like argument classes are not driven',
     ]
 
 
 def replay(chk: Check, data: T.Dict[str, T.Any]) -> None:
     common.use_repo_meson()
     det = data['detail']
+    if 'classes_case' in det:
+        from . import arglist_classes
+        arglist_classes.replay(chk, det, _tlc_part)
+        return
     if 'case' not in det:
         from . import arglist_projects
         arglist_projects.replay(chk, det, judge)
